@@ -437,14 +437,19 @@ def r4_constitution(chk, j):
         ends = [norm(x) for x in a0.args[:2]] if isinstance(a0, ast.Call) else []
         ok = isinstance(a0, ast.Call) and call_name(a0) == "Bond" and ends in ([f"{res}.atoms[{atoms}.index({n1})]", f"{res}.atoms[{atoms}.index({n2})]"], [f"{amap}[{n1}]", f"{amap}[{n2}]"])
         if not ok and isinstance(a0, ast.Call) and call_name(a0) == "Bond" and len(a0.args) >= 2 and all(
-                isinstance(x, ast.Subscript) and norm(x.value) == f"{res}.atoms" for x in a0.args[:2]):
+                isinstance(x, ast.Subscript) and norm(x.value) == f"{res}.atoms" for x in a0.args[:2]) and any(
+                isinstance(y, ast.BinOp) for x in a0.args[:2] for y in ast.walk(env.expand(x.slice, keep=roles))):
             # the product's atoms addressed by position: place of the neighbour in its own structure, less one if it sat behind the
             # attachment point that was removed, plus (for the second structure) the number of atoms kept from the first
             want = [(s1, n1, a1, []), (s2, n2, a2, sorted([f"+{s1}.n_atoms", "-1"]))]
             probs = []
-            for x, (st_, nb_, ap_, off_) in zip(a0.args[:2], want):
-                ps = position(x.slice)
-                if ps is None or ps["J"] is None or ps["I"] is None:
+            pss = [position(x.slice) for x in a0.args[:2]]
+            for x, ps, (st_, nb_, ap_, off_) in zip(a0.args[:2], pss, want):
+                if ps is None:
+                    if any(p_ is not None for p_ in pss):
+                        probs.append(f"`{norm(x.slice)}` does not compute the place of {nb_} in the product")
+                    continue
+                if ps["J"] is None or ps["I"] is None:
                     raise AnalysisError(f"join: the new bond addresses the product by `{norm(x.slice)}` - index arithmetic of an unknown form")
                 if ps["J"] != (st_, nb_):
                     probs.append(f"`{ps['text']}` starts from the index of {ps['J'][1]} in {ps['J'][0]}, not of {nb_} in {st_}")
@@ -452,7 +457,7 @@ def r4_constitution(chk, j):
                     probs.append(f"`{ps['text']}` corrects for the removal of {ps['I'][1]} from {ps['I'][0]}; the atom removed in front of {nb_} is {ap_} of {st_}")
                 if ps["offset"] != off_:
                     probs.append(f"`{ps['text']}` is shifted by {ps['offset'] or 'nothing'}; the atoms of {st_} start at {' '.join(off_) or '0'} in the product")
-            ok = not probs
+            ok = not probs and all(p_ is not None for p_ in pss)
             if probs:
                 kws = {k.arg: norm(k.value) for k in a0.keywords}
                 chk.fail("C12.R4", f"{j.key}:one-new-bond", j.where(fresh[0]), "the new bond is not placed between the copies of the two former neighbours: " + "; ".join(probs) +
